@@ -555,6 +555,11 @@ def same_any(prog, a, b, depth=2, assumptions=()):
 
 def funds_coin(prog, t, denom_path=("protocol_chain_config", "ibc_token_denom")):
     """t = info.funds.iter().find(|c| c.denom == CONFIG.<denom_path>).unwrap()  (the coin of that denom sent along)."""
+    if t[0] == "call" and t[1] == "std::ops::Index::index" and len(t[2]) == 2 and t[2][1][0] == "payload":
+        # funds[funds.iter().position(|c| c.denom == d)?]: the coin that `find` with the same predicate returns
+        pc = unwrap_payload(t[2][1])
+        if pc[0] == "call" and pc[1].endswith("Iterator::position") and len(pc[2]) == 2 and norm(pc[2][0]) == norm(t[2][0]):
+            return funds_coin(prog, ("payload", ("call", "std::iter::Iterator::find", (pc[2][0], pc[2][1])), "Ok/Some"), denom_path)
     if t[0] != "payload":
         return False
     c = unwrap_payload(t)
